@@ -838,7 +838,7 @@ pub fn run(ctx: &RunCtx) -> i32 {
     let mut total = Report::new();
     ranges_exhaustive(&mut total, ctx.tier.sz(12, 24));
     total.note(format!("ranges: exhaustive over values and lengths 0..={} plus boundary values", ctx.tier.sz(12, 24)));
-    let jobs = ctx.tier.sz(64, 2048);
+    let jobs = ctx.tier.sz(512, 16_384);
     let per_ts = ctx.tier.sz(1500, 20_000);
     let rep = par_run(ctx.workers, jobs, |j, r| {
         let mut g = Rng::new(derive_seed(ctx.seed, "C14", j));
